@@ -65,9 +65,10 @@ structure PlanIn where
 
 /-! ## lib.rs: the index maps of the plan -/
 
-/-- `remap_indices`: the i-th smallest index ↦ `i as u16` (sic) -/
+/-- `remap_indices` for the layer indices (u32): the i-th smallest index ↦ i
+(fix: the rank used to be truncated to u16) -/
 def remapIndices (xs : List Nat) : List (Nat × Nat) :=
-  xs.zipIdx.map fun (x, i) => (x, i % 65536)
+  xs.zipIdx.map fun (x, i) => (x, i)
 
 /-- loop of `remap_variation_indices`: state (new_major, new_minor, last_major) -/
 def remapVarGo (count : Nat) : List Nat → Nat → Nat → Nat → List (Nat × Nat)
@@ -248,7 +249,8 @@ def subsetPaint (b : Array Nat) (p : PlanIn) : Nat → Nat → List Obj → R (O
       let (o, pk) ← subsetPaint b p fuel c packed
       packChild pk o
     if fmt = 1 then
-      -- PaintColrLayers
+      -- PaintColrLayers (an empty range is copied as is: fix b17fcc8)
+      if src.getD 1 0 = 0 then pure (⟨src, []⟩, packed) else
       let first := beValue ((src.drop 2).take 4)
       let nf ← lookupOrFail p.layers first
       pure (⟨writeBE src 2 4 nf, []⟩, packed)
@@ -616,8 +618,8 @@ def serializeV0 (b : Array Nat) (h : Header) (p : PlanIn) (toV0 : Bool) :
       let hdr := writeBE (writeBE hdr 2 2 (idxs.length % 65536)) 12 2 numLayers
       -- no layer at all: nothing to serialize, the offset stays null (fix 4de3654)
       if numLayers = 0 then pure (hdr, [⟨4, 4, i⟩], pk) else
-      -- `colr.layer_records()`: read error ⇒ Err; NULL ⇒ `.unwrap()` panics
-      if h.layerOff = 0 then throw Err.trap
+      -- `colr.layer_records()`: read error or NULL ⇒ Err without a serializer error
+      if h.layerOff = 0 then throw Err.dropped
       let some layers := layerRecords b h | throw Err.dropped
       let lBytes ← layersGo p layers kept []
       let (j, pk) ← packChild pk ⟨lBytes, []⟩
